@@ -194,7 +194,10 @@ class NodeSliver(BaseSliver):
                 flag = cA.prop_diff(cB)
 
                 # compare child interfaces
-                if cA.get_type() == ComponentType.SmartNIC:
+                # (a SmartNIC sliver built by hand may carry no service at all)
+                if cA.get_type() == ComponentType.SmartNIC and \
+                        cA.network_service_info and cA.network_service_info.network_services and \
+                        cB.network_service_info and cB.network_service_info.network_services:
                     cAns = list(cA.network_service_info.network_services.values())[0]
                     cBns = list(cB.network_service_info.network_services.values())[0]
                     if cAns.diff(cBns):
